@@ -580,6 +580,23 @@ class Repo:
             if sf is not None:
                 return self._fold_module_name(sf, expr.id, depth)
             raise NotConst(expr.id)
+        if isinstance(expr, ast.Attribute) and expr.attr == "size" and isinstance(expr.value, (ast.Name, ast.Attribute, ast.Call)):
+            # CODEC.size with CODEC = Struct(F) (a module / class constant, or written in place): the record size of F
+            d = expr.value
+            if isinstance(d, (ast.Name, ast.Attribute)):
+                try:
+                    from . import inline as _inl
+                    d = _inl.definition_of(self, ci, sf, d) or d
+                except Exception:
+                    pass
+            if isinstance(d, ast.Call) and norm(d.func).split(".")[-1] == "Struct" and len(d.args) == 1:
+                import struct as _struct
+                fmt_ = f(d.args[0])
+                if isinstance(fmt_, str):
+                    try:
+                        return _struct.calcsize(fmt_)
+                    except _struct.error as e:
+                        raise NotConst(str(e))
         if isinstance(expr, ast.Attribute):
             return self._fold_attribute(expr, ci, sf, env, depth)
         if isinstance(expr, ast.Subscript):
